@@ -12,6 +12,7 @@ use std::collections::hash_map::DefaultHasher;
 use std::collections::BTreeSet;
 use std::hash::{Hash, Hasher};
 use std::sync::atomic::{AtomicU64, Ordering};
+use std::sync::Arc;
 use std::sync::Mutex;
 
 fn h(r: &Revision) -> u64 {
@@ -243,12 +244,74 @@ pub fn same_edit_sweep(rep: &mut Report, thorough: bool) {
     rep.violations.extend(cx.violations);
 }
 
+/// engine H part: in EVERY state of histories with conflicts, resolutions, full snapshots, deletions and time travel,
+/// every revision a replica holds is the pure function of (index, content digest, parent identifier) the
+/// constructors define - recomputed from the tree dump - and its index is its parent's plus one
+pub struct PurityProbe;
+
+impl Probe for PurityProbe {
+    fn on_state(&self, sc: &Scenario, hist: &[Op], cx: &mut Cx) {
+        let w = sc.build(hist);
+        if w.any_dead() {
+            return;
+        }
+        for r in 0..sc.nrep {
+            w.focus();
+            let m = &w.reps[r].m;
+            for u in m.get_all_objects() {
+                let Some(tree) = m.verif_dump_tree(&u) else { continue };
+                for (rev, parent, _staged) in tree {
+                    cx.count("tree_revision_purity_checks");
+                    let Ok(rv) = Revision::from(&rev) else {
+                        cx.violation("C19", "C19:tree-revision-does-not-parse", sc, hist, json!({"replica": r, "object": u, "revision": rev}));
+                        return;
+                    };
+                    if rv.to_string() != rev {
+                        cx.violation("C19", "C19:tree-revision-print-parse", sc, hist, json!({"replica": r, "object": u, "revision": rev, "reprinted": rv.to_string()}));
+                        return;
+                    }
+                    if let Some(p) = parent {
+                        let Ok(pv) = Revision::from(&p) else {
+                            cx.violation("C19", "C19:tree-revision-does-not-parse", sc, hist, json!({"replica": r, "object": u, "revision": p}));
+                            return;
+                        };
+                        let again = Revision::new(pv.index() + 1, rv.digest().clone(), Some(&pv));
+                        if again.to_string() != rev {
+                            cx.violation("C19", "C19:tree-revision-not-a-function-of-content-and-parent", sc, hist,
+                                json!({"replica": r, "object": u, "revision": rev, "parent": p, "recomputed": again.to_string()}));
+                            return;
+                        }
+                    }
+                }
+            }
+        }
+    }
+}
+
+fn purity_exploration(rep: &mut Report, thorough: bool) {
+    let mut scs = vec![];
+    scs.push(pair_conflict_scenario("purity-pair-conflict", 2, 3, &[1, 8], if thorough { 4 } else { 3 },
+        &[Op::Snapshot(0), Op::Snapshot(1), Op::Resolve(1, 0, 0), Op::Resolve(1, 0, 1), Op::Unstage(1)]));
+    scs.extend(combo_scenarios(thorough).into_iter().filter(|s| s.order.is_none() && (thorough || s.name.contains("snapshot") || s.name.contains("replay") || s.name.contains("travel"))));
+    run_h(rep, RunCfg {
+        scenarios: scs,
+        probes: vec![Arc::new(PurityProbe)],
+        pools: vec![1],
+        time_budget_s: if thorough { 900 } else { 25 },
+        max_states: if thorough { 200_000 } else { 20_000 },
+        stop_on_violation: true,
+    });
+}
+
 pub fn run(thorough: bool) {
     let mut rep = Report::new("C19", if thorough { "thorough" } else { "quick" }, "exploration");
     revision_sweep(&mut rep, thorough);
     same_edit_sweep(&mut rep, thorough);
+    let n_revs = rep.coverage.get("distinct_nontrivial").and_then(|v| v.as_u64()).unwrap_or(0);
+    purity_exploration(&mut rep, thorough);
+    rep.set("distinct_nontrivial", json!(n_revs));
     rep.set("exhaustive", json!(true));
-    rep.set("rule", json!("R = every revision reachable through the system's constructors (creation from each menu digest, new_updated / new_deleted / new_resolved to the stated depth, loader-style chains to index 13 and around 98..102 / 998..1002). (1) purity: each recipe evaluated twice and through print->parse->rebuild gives the same identifier, distinct recipes give distinct identifiers; (2) Revision::from(to_string(r)) == r with equal hash; (3) ALL ordered triples of R: reflexive, antisymmetric, transitive, total, cmp==Equal <=> ==, == => equal hash. (H) for every ordered pair of menu documents two replicas with a shared base apply both edits independently: identical winners before sync, no conflict and single leaves after. distinct_nontrivial = |R|"));
+    rep.set("rule", json!("R = every revision reachable through the system's constructors (creation from each menu digest, new_updated / new_deleted / new_resolved to the stated depth, loader-style chains to index 13 and around 98..102 / 998..1002). (1) purity: each recipe evaluated twice and through print->parse->rebuild gives the same identifier, distinct recipes give distinct identifiers; (2) Revision::from(to_string(r)) == r with equal hash; (3) ALL ordered triples of R: reflexive, antisymmetric, transitive, total, cmp==Equal <=> ==, == => equal hash. (T) in every state of conflict / resolution / full-snapshot / time-travel histories every revision in every tree equals Revision::new(parent.index+1, its digest, parent) recomputed from the tree dump and reprints as itself. (H) for every ordered pair of menu documents two replicas with a shared base apply both edits independently: identical winners before sync, no conflict and single leaves after. distinct_nontrivial = |R|"));
     rep.assume("hash collisions of the 7-hex parent tail are not explored");
     rep.finish();
 }
